@@ -38,8 +38,19 @@ def main():
     ctx = common.Ctx(prop, a.tier, seed)
     try:
         return mod.run(ctx)
-    except Exception:
+    except Exception as e:
         traceback.print_exc()
+        # an exception raised INSIDE the library by a call the check makes on every run (the unchanged tree does not raise there) is a
+        # broken correspondence, not an infrastructure failure: report it, with the traceback as the replay
+        tb = traceback.extract_tb(e.__traceback__)
+        inner = os.path.abspath(tb[-1].filename) if tb else ""
+        if inner.startswith(os.path.join(os.path.abspath(common.REPO), "matid") + os.sep):
+            site = next((f for f in reversed(tb) if os.path.abspath(f.filename).startswith(common.VERIF)), None)
+            ctx.finding("library-exception", "the library raised %s: %s (in %s:%d, reached from %s) in a call that does not raise on the unchanged tree" % (
+                type(e).__name__, str(e)[:160], os.path.relpath(inner, common.REPO), tb[-1].lineno, "%s:%d" % (os.path.basename(site.filename), site.lineno) if site else "?"),
+                {"kind": "library-exception", "traceback": traceback.format_exc()[-4000:]}, found_input=False)
+            ctx.coverage["broken"] = [{"what": "correspondence", "info": {"exception": repr(e)[:300]}}]
+            return common.finish(ctx, "other", "the check was cut short by an exception raised inside the library", ["see DESIGN.md"], "-")
         print("INFRASTRUCTURE-FAILURE property=%s" % prop)
         return 2
 
